@@ -34,7 +34,7 @@ META = {
         'statements about the language the regex chain accepts.'),
     'floors': {'C02.NAME-EXACT': 1, 'C02.PAT-PAIR': 2, 'C02.ANGLE': 8, 'C02.RAW': 2, 'C02.DISPATCH': 1, 'C02.BINARY': 2,
                'C02.CONT': 1, 'C02.INTCONV': 4, 'C02.COMMENT-FIRST': 1, 'C02.PER-INSTANCE': 2, 'C02.TRIM': 2, 'C02.CHARLEN': 4,
-               'C02.TOKEN-WS': 1},
+               'C02.TOKEN-WS': 1, 'C02.BLANK-SKIP': 1, 'C02.BRACE-TRIM': 1, 'C02.QUOTE-PAIR': 1},
 }
 
 
@@ -391,6 +391,105 @@ def check_comment_first(ctx, yc):
                   'as a keyword pair', construct='comment-line filter')
 
 
+def check_blank_skip(ctx, yc):
+    """C02.BLANK-SKIP: a line holding only blanks / tabs / CR is skipped before it is tokenised (get_token indexes string[0])."""
+    f = yc.method('_parse')
+    fa = FA(f)
+    toks = [c for c in walk_local(f.node) if isinstance(c, ast.Call) and isinstance(c.func, ast.Attribute) and c.func.attr == 'get_token'
+            and any(isinstance(a, ast.For) and 'split' in src(a.iter) for a in ancestors(c))]
+    ctx.need(toks, '_parse: tokenising call in the line loop not found')
+    loop = next(a for a in ancestors(toks[0]) if isinstance(a, ast.For) and 'split' in src(a.iter))
+    line = loop.target.id
+    found = None
+    stripped_before = False
+    for st in loop.body:
+        if st.lineno >= toks[0].lineno:
+            break
+        if isinstance(st, ast.Assign) and src(st.targets[0]) == line and src(st.value).replace(' ', '') in ('%s.strip()' % line,):
+            stripped_before = True
+        if isinstance(st, ast.If) and st.body and isinstance(st.body[-1], ast.Continue):
+            vals = st.test.values if isinstance(st.test, ast.BoolOp) and isinstance(st.test.op, ast.Or) else [st.test]
+            for t in vals:
+                ts = src(t).replace(' ', '')
+                if ts in ('not%s.strip()' % line, 'len(%s.strip())==0' % line, '%s.strip()==\'\'' % line, '%s.isspace()' % line):
+                    found = st
+                if stripped_before and ts in ('len(%s)==0' % line, 'not%s' % line, "%s==''" % line):
+                    found = st
+                for c in ast.walk(t):
+                    if isinstance(c, ast.Call) and isinstance(c.func, ast.Attribute) and c.func.attr in ('search', 'match', 'fullmatch') and c.args \
+                            and src(c.args[-1]) == line:
+                        pat = None
+                        recv = c.func.value
+                        if isinstance(recv, ast.Name):
+                            d = fa.resolve(recv)
+                            if d is not None and isinstance(d, ast.Call) and d.args and isinstance(d.args[0], ast.Constant):
+                                pat = d.args[0].value
+                        elif len(c.args) == 2 and isinstance(c.args[0], ast.Constant):
+                            pat = c.args[0].value
+                        if pat is not None:
+                            items = rx.normal(pat)
+                            core = [i for i in items if i[0] != 'AT']
+                            if len(core) == 1 and core[0][0] == 'MAX_REPEAT' and core[0][1] == 0 and rx.item_admits(core[0][3][0], ' ') \
+                                    and rx.item_admits(core[0][3][0], '\t') and rx.item_admits(core[0][3][0], '\r') and len(items) >= 2 and items[-1][0] == 'AT':
+                                found = st
+    ctx.check('C02.BLANK-SKIP', found is not None, f, found or loop, 'white-space-only lines are skipped before the line is tokenised',
+              msg='_parse no longer skips lines that hold only blanks, tabs or a CR before tokenising: such a line (every empty line of a CRLF document read '
+                  'from a file object) makes get_token index an empty string and the whole read fails', construct='blank-line filter')
+
+
+def check_brace_trim(ctx, yc):
+    """C02.BRACE-TRIM: blanks between `{` and the content of a brace-wrapped value are not part of the value."""
+    f = yc.method('get_token')
+    lits = [(c, fn, p) for c, fn, p, _ in rx.regex_literals(f.node) if p.startswith('^\\{') or p.startswith('^{') or p.startswith('\\{')]
+    ctx.need(lits, 'get_token: brace pattern not found')
+    for c, fn, p in lits:
+        items = rx.normal(p)
+        # expect: AT, LITERAL '{', MAX_REPEAT(0..) whitespace, <capture>...
+        idx = next((i for i, it in enumerate(items) if it == ('LITERAL', 123)), None)
+        ok = idx is not None and idx + 1 < len(items) and items[idx + 1][0] == 'MAX_REPEAT' and items[idx + 1][1] == 0 \
+            and rx.item_admits(items[idx + 1][3][0], ' ') and rx.item_admits(items[idx + 1][3][0], '\t') and not rx.item_admits(items[idx + 1][3][0], 'a')
+        post = False
+        if not ok:
+            # equivalent: the captured word is stripped afterwards in the same branch
+            st = c
+            while st is not None and not isinstance(st, ast.stmt):
+                st = getattr(st, '_parent', None)
+            blk = getattr(st, '_parent', None)
+            for fld in ('body', 'orelse'):
+                lst = getattr(blk, fld, None)
+                if isinstance(lst, list) and any(x is st for x in lst):
+                    post = any(isinstance(x, ast.Assign) and src(x.targets[0]) == 'word' and src(x.value).replace(' ', '') in ('word.strip()', 'word.lstrip()') for x in lst)
+        ctx.check('C02.BRACE-TRIM', ok or post, f, c, 'blanks after the opening brace are not part of the value (%r)' % p,
+                  msg='the brace pattern %r keeps the blanks that follow `{`: `{ alpha beta}` reads as " alpha beta"; arbitrary blanks and tabs are part of the '
+                      'admissible layout' % p, construct='brace pattern ' + p)
+
+
+def check_quote_pair(ctx, yc):
+    """C02.QUOTE-PAIR: what get_token removes from a quoted word is exactly what protect added.  Without escapes both sides are the
+    identity; a reader that un-escapes backslash sequences needs a writer that escapes the backslash itself."""
+    g = yc.method('get_token')
+    p_ = yc.method('protect')
+    top = [st for st in g.node.body if isinstance(st, ast.If)]
+    ctx.need(top, 'get_token: dispatch on the first character not found')
+    qbranch = top[-1].body
+    unescape = []
+    for st in qbranch:
+        for c in walk_local(st):
+            if isinstance(c, ast.Call) and isinstance(c.func, ast.Attribute) and c.func.attr in ('replace', 'sub', 'decode', 'translate'):
+                if '\\\\' in src(c) or 'unicode_escape' in src(c):
+                    unescape.append(c)
+    quoted_pat = [(c, p) for c, fn, p, _ in rx.regex_literals(top[-1]) if p.startswith('^"')]
+    escapes_bs = any(isinstance(c, ast.Call) and isinstance(c.func, ast.Attribute) and c.func.attr == 'replace' and len(c.args) == 2
+                     and try_fold(c.args[0]) == '\\' and try_fold(c.args[1]) == '\\\\' for c in walk_local(p_.node))
+    tolerant = any('\\\\' in p for c, p in quoted_pat)
+    ok = (not unescape and not tolerant) or escapes_bs
+    ctx.check('C02.QUOTE-PAIR', ok, g, (unescape or [qc for qc, _ in quoted_pat] or [g.node])[0],
+              'quoted words are read back verbatim (no escape processing on either side)' if not unescape else 'reader un-escapes and writer escapes the backslash',
+              msg='get_token treats a backslash inside a quoted word as an escape (`%s`) but protect() does not escape the backslash itself: every quoted '
+                  'value containing a backslash (a Windows path, a LaTeX label) is read back changed, and one ending in a backslash cannot be read at all'
+                  % (src(unescape[0])[:50] if unescape else (quoted_pat[0][1] if quoted_pat else '')), construct='escape processing without a matching writer')
+
+
 MUTATORS = {'append', 'extend', 'update', 'setdefault', 'pop', 'clear', 'insert', 'remove', 'add', 'popitem'}
 
 
@@ -612,6 +711,10 @@ def run(ctx):
     check_trim(ctx, yc)
     check_charlen(ctx, yc)
     check_token_ws(ctx, yc)
+    check_blank_skip(ctx, yc)
+    check_brace_trim(ctx, yc)
+    check_quote_pair(ctx, yc)
+    ctx.cover(yc.method('protect'))
     ctx.cover(yc.method('trailing_comment'), yc.method('char_length'), yc.method('get_token'))
     # INTCONV shared with C01 (same rule function, reported under C02's rule id)
     sub = type(ctx)(ctx.prop, ctx.repo, ctx.tier)
